@@ -806,10 +806,11 @@ def unwrap_specobjid(specObjID, run2d_integer=False, specLineIndex=False):
     if run2d_integer:
         unwrap.run2d = run2d
     else:
-        N = ((run2d // 10000) + 5).tolist()
-        M = ((run2d % 10000) // 100).tolist()
-        P = (run2d % 100).tolist()
-        unwrap.run2d = ['v{0:d}_{1:d}_{2:d}'.format(n, m, p)
-                        for n, m, p in zip(N, M, P)]
+        N = ((run2d // 10000) + 5).ravel().tolist()
+        M = ((run2d % 10000) // 100).ravel().tolist()
+        P = (run2d % 100).ravel().tolist()
+        unwrap.run2d = np.array(['v{0:d}_{1:d}_{2:d}'.format(n, m, p)
+                                 for n, m, p in zip(N, M, P)],
+                                dtype=run2d_dtype).reshape(run2d.shape)
     unwrap[line] = np.bitwise_and(tempobjid, 2**10 - 1)
     return unwrap
